@@ -2,7 +2,7 @@
    Only statements closed by `exact`; proofs live in Cursor/BinaryProofs.v. *)
 From Coq Require Import List Arith Bool Lia.
 Import ListNotations.
-From CV Require Import Cursor.BinaryState Cursor.BinaryProofs.
+From CV Require Import Cursor.BinaryState Cursor.BinaryProofs Cursor.IfsCursor.
 
 (* Every proposed range is inside the current instance list, for EVERY verdict function
    (of step number, current list and cursor), every list; the run ends within (n+1)(n+2)
@@ -39,6 +39,13 @@ Theorem C06_no_skip_after_accept :
 Proof. intros s n' H; split; [exact (aos_keeps_index s n' H)|exact (aos_past_end s n' H)]. Qed.
 
 (* Non-vacuity: a concrete run with mixed verdicts, and the monotone theorem's instance. *)
+(* #if blocks: IfPass resolves each range first to 0, then to 1; when every candidate is rejected its cursors are exactly the
+   ranges of the binary-search enumeration, each with both values - so every single conditional is tried both ways *)
+Theorem C06_ifs_tries_both_values :
+  forall (fuel : nat) (s : bst),
+  ifs_enum (2 * fuel) (s, false) = flat_map (fun r => [(r, false); (r, true)]) (enum fuel s).
+Proof. exact ifs_enum_spec. Qed.
+
 Example C06_example_mono :
   reduce (ok_mono (fun x => Nat.eqb x 2 || Nat.eqb x 5)) [0;1;2;3;4;5;6] =
   Done [2;5] [(0,7,7,false);(0,3,7,false);(3,6,7,false);(6,7,7,true);(0,1,6,true);(0,1,5,true);
